@@ -1,3 +1,4 @@
+import OcppProps.C13Fine
 import OcppModel.WsServer
 import OcppModel.Expected
 import OcppGen.Skeletons
@@ -413,4 +414,33 @@ theorem skel_wsWritePump : Gen.Skeletons.wsWritePump = Ocpp.Expected.wsWritePump
 theorem skel_wsSocketClose : Gen.Skeletons.wsSocketClose = Ocpp.Expected.wsSocketClose := by decide
 theorem skel_wsIsConnected : Gen.Skeletons.wsIsConnected = Ocpp.Expected.wsIsConnected := by decide
 
-end C13
+/-! ### Below quiescence: the life of one client id in every interleaving of handler and teardown goroutines
+(`OcppProps/C13Fine.lean`, small-step model `Ocpp.WsIdFine` of `ws.server` after /repo 3413323) -/
+
+/-- the application's callbacks for one id alternate new k, disconnected k, new k', … in every interleaving -/
+theorem fine_callbacks_alternate (ls : List Ocpp.WsIdFine.Label) (s : Ocpp.WsIdFine.St) (h : Ocpp.WsIdFine.runL {} ls = some s) :
+    (C13Fine.openOf s.log).isSome = true := C13Fine.callbacks_alternate ls s h
+
+/-- the connection announced and not yet reported as ended is the one the callback log says -/
+theorem fine_open_is_logged (ls : List Ocpp.WsIdFine.Label) (s : Ocpp.WsIdFine.St) (h : Ocpp.WsIdFine.runL {} ls = some s) (k : Nat)
+    (hk : C13Fine.isOpen (Ocpp.WsIdFine.phase s k) = true) : C13Fine.openOf s.log = some (some k) := C13Fine.open_is_logged ls s h k hk
+
+/-- at most one connection of an id is registered -/
+theorem fine_one_registered (ls : List Ocpp.WsIdFine.Label) (s : Ocpp.WsIdFine.St) (h : Ocpp.WsIdFine.runL {} ls = some s) (k j : Nat)
+    (hk : C13Fine.isActive (Ocpp.WsIdFine.phase s k) = true) (hj : C13Fine.isActive (Ocpp.WsIdFine.phase s j) = true) : k = j :=
+  C13Fine.one_registered ls s h k j hk hj
+
+/-- a duplicate is refused exactly while a connection of the id is registered; the refusal changes nothing -/
+theorem fine_refused_iff_registered (s : Ocpp.WsIdFine.St) :
+    (Ocpp.WsIdFine.step s .refuse).isSome = s.entry.isSome ∧ ∀ s', Ocpp.WsIdFine.step s .refuse = some s' → s' = s :=
+  C13Fine.refused_iff_registered s
+
+/-- before /repo 3413323 the next connection of an id could be announced before the end of the previous one was reported
+    (the history monitor `c11_idreuse` forced on the real server) -/
+theorem fine_old_announces_before_disconnected :
+    (Ocpp.WsIdFine.runL { waitPrev := false } C13Fine.reuseRun).map (·.log) = some [.new 0, .new 1] ∧
+    (Ocpp.WsIdFine.runL { waitPrev := false } C13Fine.reuseRun).map (fun s => C13Fine.openOf s.log) = some none :=
+  C13Fine.old_announces_before_disconnected
+
+example : (Ocpp.WsIdFine.runL {} [.accept, .wait 0, .announce 0, .drop 0, .release 0, .accept, .discCb 0, .finish 0, .wait 1, .announce 1]).map (·.log) =
+    some [.new 0, .disc 0, .new 1] := by decide
